@@ -10,8 +10,9 @@ import math
 import re
 from fractions import Fraction
 
-NUM = r"[-+]?(?:\d+\.?\d*|\.\d+)(?:[eE][-+]?\d+)?"
-TOKEN = re.compile(r"^([A-Za-z]+)(" + NUM + r")$")
+# a machine reads plain signed decimals only: `Z5e-05` is the word Z5 followed by the word E-05 (no exponent notation)
+NUM = r"[-+]?(?:\d+\.?\d*|\.\d+)"
+TOKEN = re.compile(r"([A-Za-z])(" + NUM + r")")
 
 
 def frac(s: str) -> Fraction:
@@ -63,14 +64,17 @@ def lex_line(text: str, comment_symbol: str = ";"):
     body = text.split(comment_symbol, 1)[0]
     codes, words = [], []
     for tok in body.split():
-        m = TOKEN.match(tok)
-        if not m:
-            raise ValueError(f"unlexable token {tok!r} in {text!r}")
-        letter, num = m.group(1).upper(), m.group(2)
-        if letter in ("G", "M"):
-            codes.append(letter + num)
-        else:
-            words.append((letter, Fraction(num)))
+        pos = 0
+        while pos < len(tok):
+            m = TOKEN.match(tok, pos)
+            if not m:
+                raise ValueError(f"unlexable token {tok!r} in {text!r}")
+            pos = m.end()
+            letter, num = m.group(1).upper(), m.group(2)
+            if letter in ("G", "M"):
+                codes.append(letter + num)
+            else:
+                words.append((letter, Fraction(num)))
     return codes, words
 
 
